@@ -351,10 +351,12 @@ theorem reregistration_keeps_pending (c : Client) (h : Inv c) (t : TowerId) (sm 
 
 /-- **delivery after a subscription error, once the subscription can be renewed**: the retrier
 registers again (the tower hands out an extending receipt), then delivers every pending
-appointment; the tower is shown reachable with nothing pending -/
+appointment; the tower is shown reachable with nothing pending. The tower may be one that accepts
+anyway, or one that answers with a subscription error UNTIL the client has registered again
+(`subErrUntilReg`): what is required is that it accepts once renewed. -/
 theorem delivers_after_renewal (s : St) (t : TowerId) (h : Inv s.client) (sm : Summary)
     (ht : s.client.towers t = some sm) (hst : sm.status = .subscriptionError)
-    (hreg : (s.beh t).reg = .accept) (hb : classify (s.beh t) = .accepted)
+    (hreg : (s.beh t).reg = .accept) (hb : classify { s.beh t with renewed := true } = .accepted)
     (hsteady : (s.beh t).once = 0) (hnh : (s.beh t).hold = false) (hne : sm.pending ≠ []) :
     let s' := s.retry t (s.pendingOf t)
     (∀ l ∈ sm.pending, (s'.client.store.rcpts t l).isSome = true) ∧
@@ -371,20 +373,24 @@ theorem delivers_after_renewal (s : St) (t : TowerId) (h : Inv s.client) (sm : S
   obtain ⟨hi1, sm1, hs1, hp1, hst1⟩ := reregistration_keeps_pending s.client h t sm ht
   -- the state after the re-registration
   let s1 : St := (s.towerRegisters t).recordRegistration t
-  have htr : s.towerRegisters t = s := by unfold St.towerRegisters; rw [hreg]
+  have htrc : (s.towerRegisters t).client = s.client := towerRegisters_client s t
+  have htrb : (s.towerRegisters t).beh t = { s.beh t with renewed := true } := by
+    unfold St.towerRegisters; rw [hreg]; simp
   have hc1 : s1.client = (s.client.addUpdateTower t t (nextReceipt s.client t)).1 := by
     show ((s.towerRegisters t).recordRegistration t).client = _
-    rw [htr]; rfl
-  have hbeh1 : s1.beh = s.beh := by
-    show ((s.towerRegisters t).recordRegistration t).beh = _
-    rw [htr]; rfl
+    unfold St.recordRegistration
+    simp only [htrc]
+  have hbeh1 : s1.beh t = { s.beh t with renewed := true } := by
+    show ((s.towerRegisters t).recordRegistration t).beh t = _
+    unfold St.recordRegistration
+    exact htrb
   have hre : reRegister s t = (s1, none) := by
     unfold reRegister St.status
     simp only [ht, Option.map_some, hst, ↓reduceIte, hdown, Bool.false_eq_true, hreg]
     have : regAccepted s t = true := by unfold regAccepted; rw [hreg]
     simp [this, s1]
-  have hcons : ∀ x : St, x.beh = s.beh → x.consume t = x := by
-    intro x hx; unfold St.consume; rw [hx, hsteady]; simp
+  have hcons : ∀ x : St, x.beh t = { s.beh t with renewed := true } → x.consume t = x := by
+    intro x hx; unfold St.consume; rw [hx]; simp [hsteady]
   have hfin := finish_delivery s1.client (by rw [hc1]; exact hi1) t sm1 (by rw [hc1]; exact hs1)
     (by rw [hst1, hst]; intro e; cases e)
   obtain ⟨r1, _⟩ := sendAll_accepted t sm1.pending s1.client (by rw [hc1]; exact hi1)
@@ -504,6 +510,18 @@ example :
     (r.1.step (.retry 0)).2 = some .errStatus := by
   decide
 
+/-- non-vacuity for `delivers_after_renewal`: the subscription runs out while the tower is down; back
+up, it answers with a subscription error until the client has registered again — which the retrier
+finds out by itself, renews, and delivers -/
+example :
+    let s1 := (({} : St).step (.register 0)).1
+    let s2 := (s1.step (.setBeh 0 { down := true })).1
+    let s3 := (s2.step (.notify 1)).1
+    let s4 := (s3.step (.setBeh 0 { add := .subErrUntilReg })).1
+    let r := s4.step (.retry 0)
+    s3.status 0 = some .unreachable ∧ r.2 = some .ok ∧ r.1.status 0 = some .reachable ∧
+    r.1.pendingOf 0 = [] ∧ (r.1.client.store.rcpts 0 1).isSome = true := by
+  decide
 
 /-! ### truthful status, for every history -/
 
